@@ -147,25 +147,30 @@ def job_fp_track_centroid(res, n, fptype, dt, fptrack=1):
         account(res, ex, mod, [sa])
     if fptype in (1, 3): witness(res, 'FP tracking model %d type %d: the particle shift depends on e1' % (fptrack, fptype), list(st.pc), z3.BoolVal(True))
 
-def job_centroid(res, n, it, axis, X, Y, frac):
+def job_centroid(res, n, it, axis, X, Y, frac, key='particle-follows-blob', what=None):
     """particle at (X[+1/2], Y) vs the centre of a unit blob of charge placed on it, after one kick with a symbolic displacement field"""
     bld = maps_build(); mod = load_module(bld, MAPS_MODS)
     snap, R, pre = maps_world(bld, n, 1, it)
     km = 'kmy' if axis else 'kmx'; off = 'offy' if axis else 'offx'
+    if what:      # a map made by its real constructor (RF kick of either model, drift), reached through the virtual applyTo/apply of that object; the displacement rows the particle sees are overlaid with symbols
+        km = what; axis = 0 if what == 'drift' else 1
     ex = Exec(mod, snap, RealDom()); st = State()
     # blob: perpendicular coordinate P (=X), kick coordinate K (=Y)
     rows = [X, X + 1] if frac else [X]
     os_ = {}
     for r in rows:
         o = z3.Real('off%d' % r); st.pc += [o >= -1, o <= 1]; st.ranges['off%d' % r] = (Fraction(-1), Fraction(1)); os_[r] = o
-        st.sym[R[off + '_data'] + 4 * r] = (4, 'f', o)
+        st.sym[(R[what + '_force'] if what else R[off + '_data']) + 4 * r] = (4, 'f', o)
     for i in range(n * n): ex.write_bytes(st, R['data_in'] + 4 * i, bytes(4))
     wts = {X: Fraction(1, 2), X + 1: Fraction(1, 2)} if frac else {X: Fraction(1)}
     def cell(base, r, i): return R[base] + 4 * ((r * n + i) if axis else (i * n + r))
     for r, w in wts.items(): ex.write_bytes(st, cell('data_in', r, Y), struct.pack('<f', float(w)))
     ppos = (X + (0.5 if frac else 0.0), float(Y)) if axis else (float(Y), X + (0.5 if frac else 0.0))
     ex.write_bytes(st, R['pos'], struct.pack('<ff', *ppos))
-    sts = run_paths(ex, st, 'e_km_swap_apply', [R[km], R[off]])
+    if what:      # the table apply() uses is rebuilt from the overlaid field by the real KickMap::updateSM (what swapOffset/_calcKick do after they change the field)
+        sts = []
+        for s0 in run_paths(ex, st, '_ZN4vfps7KickMap8updateSMEv', [R[km]]): sts += run_paths(ex, s0, 'e_apply', [R[km]])
+    else: sts = run_paths(ex, st, 'e_km_swap_apply', [R[km], R[off]])
     fin = []
     for s in sts: fin += run_paths(ex, s, 'e_applyTo', [R[km], R['pos']])
     account(res, ex, mod, fin)
@@ -177,10 +182,11 @@ def job_centroid(res, n, it, axis, X, Y, frac):
                 c = ex.dom.z(ex.load(s, cell('data_out', r, i), F32)); tot = tot + c; mom = mom + c * i
         newp = ex.dom.z(ex.load(s, R['pos'] + (4 if axis else 0), F32))
         perp = ex.dom.z(ex.load(s, R['pos'] + (0 if axis else 4), F32))
-        def cex(m): return {'replay': 'centroid', 'n': n, 'it': it, 'axis': axis, 'X': X, 'Y': Y, 'frac': frac, 'off': {str(r): mval(m, o) for r, o in os_.items()}, 'particle': mval(m, newp), 'centroid': mval(m, mom)}
-        prove(res, '%s-kick n=%d it=%d particle (%s) vs unit blob: new kick coordinate == centroid of the transported blob, perpendicular coordinate unchanged (case %s)' % ('y' if axis else 'x', n, it, ppos, [str(c)[:30] for c in s.pc if 'off' in str(c)][-2:]),
-              s.pc, z3.Or(tot - 1 > tol, tot - 1 < -tol, newp - mom > tol, newp - mom < -tol, perp != Fraction(ppos[0] if axis else ppos[1])), key='particle-follows-blob', cex_fn=cex)
+        def cex(m): return {'replay': 'centroid', 'what': what, 'n': n, 'it': it, 'axis': axis, 'X': X, 'Y': Y, 'frac': frac, 'off': {str(r): mval(m, o) for r, o in os_.items()}, 'particle': mval(m, newp), 'centroid': mval(m, mom)}
+        prove(res, ('%s: ' % what if what else '') + '%s-kick n=%d it=%d particle (%s) vs unit blob: new kick coordinate == centroid of the transported blob, perpendicular coordinate unchanged (case %s)' % ('y' if axis else 'x', n, it, ppos, [str(c)[:30] for c in s.pc if 'off' in str(c)][-2:]),
+              s.pc, z3.Or(tot - 1 > tol, tot - 1 < -tol, newp - mom > tol, newp - mom < -tol, perp != Fraction(ppos[0] if axis else ppos[1])), key=key, cex_fn=cex)
     s = fin[0]; newp = ex.dom.z(ex.load(s, R['pos'] + (4 if axis else 0), F32)); o = os_[X]; o2 = z3.Real('o_alt')
+    if key != 'particle-follows-blob': return      # (on the last grid line the particle does not see the displacement at all: the open finding)
     witness(res, 'particle position depends on the displacement (n=%d it=%d axis=%d)' % (n, it, axis), list(s.pc) + [z3.substitute(c, (o, o2)) for c in s.pc if str(o) in str(c)], z3.substitute(newp, (o, o2)) != newp)
 
 def replayer(bld):
@@ -216,11 +222,51 @@ def replayer(bld):
                 return (len(out) > 0, 'native: %d of %d stochastic steps from %s left the grid, e.g. %s' % (len(out), len(qs), c['pos'], out[:1]))
             return (len(out) > 0, 'native applyTo%s -> %s' % (c['pos'], qs[0]))
         if what == 'centroid':
-            return (True, 'blob/particle mismatch (algebraic identity of the real kernels): particle %s centroid %s' % (c['particle'], c['centroid']))
+            # the model's displacements, a unit blob on the particle, the real KickMap: centre of the transported blob against the particle after applyTo
+            axis, X, Y, frac = c['axis'], c['X'], c['Y'], c['frac']
+            if c.get('what'):
+                # the displacement field of a constructor-made map cannot be set natively: replay with the constructor's own field (the particle must follow the blob for that one too)
+                data = [0.0] * (n * n); rows = {X: 0.5, X + 1: 0.5} if frac else {X: 1.0}
+                for r, w in rows.items(): data[(r * n + Y) if axis else (Y * n + r)] = w
+                pos = (X + (0.5 if frac else 0.0), float(Y)) if axis else (float(Y), X + (0.5 if frac else 0.0))
+                spec = {'what': {'rflin': 'rflin', 'rfsin': 'rfsin', 'drift': 'drift'}[c['what']], 'n': n, 'nb': 1, 'it': c['it'], 'seed': 7, 'data': data, 'pos': list(pos)}
+                # first with the model's displacements put into the map (swapOffset), then - if that shows nothing - with the constructor's own field
+                off = [0.0] * n
+                for r, v in c['off'].items(): off[int(r)] = float(v)
+                spec['set_off'] = off
+                if c['what'] == 'drift': spec.update({'slip': [0.11, 0.013, 0.0017], 'E0': 1.3e9})
+                if c['what'] == 'rfsin': spec.update({'revpart': 0.02, 'V': 1.4e6, 'fRF': 4.99e8, 'V0': 4.5e5})
+                o = native_run(bld, spec, 'c15'); out = o['out']; tot = 0.0; mom = 0.0
+                for r in rows:
+                    for i in range(n):
+                        v = out[(r * n + i) if axis else (i * n + r)]; tot += v; mom += v * i
+                part = o['posout'][1 if axis else 0]
+                if tot <= 0: return (False, 'native: the blob left the grid')
+                return (abs(part - mom / tot) > 1e-4, 'native %s (displacement field of the counterexample put in with swapOffset: %s): particle %s -> kick coordinate %.5f, centre of the unit blob %.5f' % (c['what'], c['off'], pos, part, mom / tot))
+            off = [0.0] * n
+            for r, v in c['off'].items(): off[int(r)] = float(v)
+            data = [0.0] * (n * n); rows = {X: 0.5, X + 1: 0.5} if frac else {X: 1.0}
+            for r, w in rows.items(): data[(r * n + Y) if axis else (Y * n + r)] = w
+            pos = (X + (0.5 if frac else 0.0), float(Y)) if axis else (float(Y), X + (0.5 if frac else 0.0))
+            o = native_run(bld, {'what': 'kick', 'n': n, 'nb': 1, 'it': c['it'], 'seed': 7, 'axis': axis, 'off': off, 'data': data, 'pos': list(pos)}, 'c15')
+            out = o['out']; tot = 0.0; mom = 0.0
+            for r in rows:
+                for i in range(n):
+                    v = out[(r * n + i) if axis else (i * n + r)]; tot += v; mom += v * i
+            part = o['posout'][1 if axis else 0]
+            if tot <= 0: return (True, 'native: the blob left the grid, the particle is at %s' % part)
+            return (abs(part - mom / tot) > 1e-3 or abs(tot - 1) > 1e-3, 'native KickMap (%s-kick, n=%d, it=%d, displacement %s): particle %s -> kick coordinate %.5f, centre of the unit blob %.5f (blob charge %.5f)' % ('y' if axis else 'x', n, c['it'], c['off'], pos, part, mom / tot, tot))
         return (False, 'unknown')
     return rp
 
 def get_replayer(): return replayer(maps_build())
+
+def EDGE(n, its):
+    """the particle on the first / last lines of the grid perpendicular to the kick (the values the clamps of the previous map leave it on)"""
+    j = [(job_centroid, (n, it, ax, X, n // 2, fr)) for it in its for ax in (0, 1) for (X, fr) in ((0, 0), (0, 1), (1, 0), (n - 2, 0), (n - 2, 1))]
+    # exactly on the last line: KickMap::applyTo skips the displacement there (its guard protects the interpolation's read of the next row) - open finding, own key
+    j += [(job_centroid, (n, it, ax, n - 1, n // 2, 0, 'particle-follows-blob-last-line')) for it in its for ax in (0, 1)]
+    return j
 
 def main(tier):
     chk = Check('C15', tier, '4/C15')
@@ -234,6 +280,8 @@ def main(tier):
         jobs += [(job_contain_ieee, (8, w, 1, 3, yi)) for w in ('kmx', 'kmy') for yi in (0, 3, 7)]
         jobs += [(job_centroid, (10, it, ax, X, Y, fr)) for it in (2, 4) for ax in (0, 1) for (X, Y) in ((4, 5), (2, 4)) for fr in (0, 1)]
         jobs += [(job_centroid, (10, 3, ax, 5, 5, fr)) for ax in (0, 1) for fr in (0, 1)]
+        jobs += EDGE(10, (2, 4))
+        jobs += [(job_centroid, (10, it, 0, X, 5, fr, 'particle-follows-blob', w)) for w in ('rflin', 'rfsin', 'drift') for it in (2, 4) for (X, fr) in ((4, 0), (6, 1))]
         import c19, c17
         jobs += [(c19.job_queue, (8, 4, 2))]
         jobs += [(c17.job_tracks_index, (4, 1, 8, 2))]      # the stored track: a coordinate anywhere in [0, n-1] - the border values the maps clamp to included - is converted to physical units inside the axis arrays      # modulated RF: the field a tracked particle sees after apply() is the one the step applied (built from the entry just consumed)
@@ -246,8 +294,10 @@ def main(tier):
         jobs += [(job_contain_ieee, (n, 'fpm', ft, dt, yi)) for n in (8, 9) for ft in (1, 2) for dt in (3, 4) for yi in range(n)]
         jobs += [(job_contain_ieee, (8, w, 1, 3, yi)) for w in ('kmx', 'kmy') for yi in range(8)]
         jobs += [(job_centroid, (n, it, ax, X, Y, fr)) for n in (10, 11) for it in (2, 3, 4) for ax in (0, 1) for X in range(2, n - 3) for Y in range(3, n - 3) for fr in (0, 1)]
+        jobs += EDGE(10, (2, 3, 4)) + EDGE(11, (2, 3, 4))
+        jobs += [(job_centroid, (n, it, 0, X, n // 2, fr, 'particle-follows-blob', w)) for n in (10, 11) for w in ('rflin', 'rfsin', 'drift') for it in (2, 3, 4) for X in range(0, n - 1) for fr in (0, 1)]
     chk.bounds = {'containment': 'every real start position in [0,n-1]^2 (integer part of the interpolation coordinate case-split), every real displacement field / noise draw (unbounded), grids 6-12',
-                  'centroid': 'unit blob on a grid point or split over two neighbouring rows (half-integer position), displacement of each involved row symbolic in [-1,1]; interior points; it>=2',
+                  'centroid': 'unit blob on a grid point or split over two neighbouring rows (half-integer position), displacement of each involved row symbolic in [-1,1]; every line perpendicular to the kick from the first to the last, kick coordinate in the interior (near the border in kick direction the blob is pushed off the grid and has no centre); it>=2',
                   'stochastic model': 'one step, e1 = 0.01, shifted energy axis (zero bin off-centre)'}
     chk.assumptions = ['floats as reals: NaN positions/displacements are outside the claim', 'std::normal_distribution::operator() returns mean + sigma*xi with xi an arbitrary real (parameters read from the real object)',
                        'index conversion in HDF5File::appendTracks is checked with the HDF5 harness (C10/C17)', 'deterministic FP tracking models 1/2: containment only (the statement constrains kick/drift and the stochastic model)']
